@@ -132,11 +132,39 @@ func runSel[T seqx.Number, A seqx.ND[T, A]](ty typ[T, A], c selCase, r *vf.Rec) 
 	fn := h5file()
 	hdf5.FakeReset()
 	defer hdf5.FakeReset()
+	// the caller's selection object: used for the load, checked afterwards, then used again on a larger dataset
+	sel := make([][]int, len(c.sel))
+	for i, s := range c.sel {
+		if s != nil {
+			sel[i] = append([]int{}, s...)
+		}
+	}
+	if !loadSel(ty, fn, "/d", c.shape, c.sel, sel, "", r) {
+		return
+	}
+	if !reflect.DeepEqual(sel, c.sel) {
+		r.Failf("C08/load-modifies-the-callers-selection", map[string]interface{}{"element_type": ty.name, "shape": c.shape, "selection": c.sel, "selection_after_load": sel},
+			"Load(%v) of a %v dataset changed the caller's selection to %v", c.sel, c.shape, sel)
+		return
+	}
+	big := make([]int, len(c.shape))
+	for i := range big {
+		big[i] = c.shape[i] + 2
+	}
+	if !loadSel(ty, fn, "/big", big, c.sel, sel, "/selection-object-used-before-on-a-smaller-dataset", r) {
+		return
+	}
+	r.MarkNontrivial()
+}
+
+// loadSel writes a dataset of the given shape and loads it with the selection object sel (whose intended value is want).
+func loadSel[T seqx.Number, A seqx.ND[T, A]](ty typ[T, A], fn, ds string, shape []int, want, sel [][]int, tag string, r *vf.Rec) bool {
+	c := selCase{shape, want}
 	n := prod(c.shape)
 	full := ty.from(seq[T](n, 10), c.shape)
-	if err := ty.mk(fn, "/d", nil).Write(full); err != nil {
+	if err := ty.mk(fn, ds, nil).Write(full); err != nil {
 		r.Failf("C08/write-fails", nil, "Write of a %v %s array failed: %v", c.shape, ty.name, err)
-		return
+		return false
 	}
 	sets := make([][]int, len(c.shape))
 	empty := false
@@ -146,28 +174,28 @@ func runSel[T seqx.Number, A seqx.ND[T, A]](ty typ[T, A], c selCase, r *vf.Rec) 
 			empty = true
 		}
 	}
-	d := map[string]interface{}{"element_type": ty.name, "shape": c.shape, "selection": c.sel}
+	d := map[string]interface{}{"element_type": ty.name, "shape": c.shape, "selection": c.sel, "dataset": ds}
 	var got A
 	var err error
 	p := func() (p interface{}) {
 		defer func() { p = recover() }()
-		got, err = ty.mk(fn, "/d", c.sel).Load()
+		got, err = ty.mk(fn, ds, sel).Load()
 		return nil
 	}()
 	if p != nil {
 		d["panic"] = fmt.Sprint(p)
-		r.Failf("C08/load-selection-panics", d, "Load(%v) of a %v dataset panicked: %v", c.sel, c.shape, p)
-		return
+		r.Failf("C08/load-selection-panics"+tag, d, "Load(%v) of a %v dataset panicked: %v", c.sel, c.shape, p)
+		return false
 	}
 	if empty {
 		// an empty selection: an error or an empty result, nothing more is required
 		r.Count("empty_selections", 1)
-		return
+		return true
 	}
 	if err != nil {
 		d["error"] = err.Error()
-		r.Failf("C08/load-selection-fails", d, "Load(%v) of a %v dataset failed: %v", c.sel, c.shape, err)
-		return
+		r.Failf("C08/load-selection-fails"+tag, d, "Load(%v) of a %v dataset failed: %v", c.sel, c.shape, err)
+		return false
 	}
 	wantShape := make([]int, len(sets))
 	for i := range sets {
@@ -188,8 +216,8 @@ func runSel[T seqx.Number, A seqx.ND[T, A]](ty typ[T, A], c selCase, r *vf.Rec) 
 			}
 		}
 		d["got_shape"], d["want_shape"] = gs, wantShape
-		r.Failf("C08/selection-shape-wrong/"+cls, d, "Load(%v) of a %v dataset has shape %v; the selection start..stop step has %v elements", c.sel, c.shape, gs, wantShape)
-		return
+		r.Failf("C08/selection-shape-wrong/"+cls+tag, d, "Load(%v) of a %v dataset has shape %v; the selection start..stop step has %v elements", c.sel, c.shape, gs, wantShape)
+		return false
 	}
 	idx := make([]int, len(sets))
 	for k := 0; k < prod(wantShape); k++ {
@@ -199,12 +227,13 @@ func runSel[T seqx.Number, A seqx.ND[T, A]](ty typ[T, A], c selCase, r *vf.Rec) 
 		}
 		if g, w := got.Get(idx), full.Get(src); g != w {
 			d["index"], d["got"], d["want"] = append([]int{}, idx...), g, w
-			r.Failf("C08/selection-values-wrong", d, "Load(%v): element %v is %v, the in-memory slice has %v", c.sel, idx, g, w)
-			return
+			r.Failf("C08/selection-values-wrong"+tag, d, "Load(%v): element %v is %v, the in-memory slice has %v", c.sel, idx, g, w)
+			return false
 		}
 		data.Increment(idx, wantShape)
 	}
-	r.MarkNontrivial()
+	r.Count("selection_loads", 1)
+	return true
 }
 
 // ---------------------------------------------------------------------------------------------
